@@ -166,7 +166,8 @@ pub fn reference_for<T: Real>(case: &Case, input: &[Complex<T>]) -> Rc<Vec<CDD>>
     let r = Rc::new(out);
     REF_CACHE.with(|c| {
         let mut c = c.borrow_mut();
-        if c.len() >= 4 {
+        // bounded by entries and by total elements
+        while c.len() >= 48 || (c.len() >= 4 && c.iter().map(|e| e.1.len()).sum::<usize>() > 3_000_000) {
             c.remove(0);
         }
         c.push((key, Rc::clone(&r)));
@@ -209,7 +210,8 @@ pub fn k_numeric<T: Real>(case: &Case) -> Outcome {
     };
     let reference = reference_for::<T>(case, &input);
     let b = bound(n, T::EPS);
-    let factor = tolerance_factor(&case.prop);
+    // p[0] = 1 selects the C02 bound itself
+    let factor = if case.pget(0) == 1 { 1.0 } else { tolerance_factor(&case.prop) };
     let mut worst = 0.0f64;
     for (ci, (o, r)) in out.chunks(n).zip(reference.chunks(n)).enumerate() {
         if is_zero_vec(&input[ci * n..(ci + 1) * n]) {
